@@ -165,9 +165,14 @@ impl ChainBlockReader for ModelChainReader {
                 let len = n.chain.len();
                 let depth = r.depth.min(len);
                 let keep = (len - depth).checked_sub(1);
+                let old_tip = n.tip_number();
                 n.roll_back(keep);
-                // the node only switches to a chain that is at least as long
+                // the node only switches to a chain that is at least as long (and, with gaps in
+                // the numbering, whose tip number is not lower: import targets stay <= tip)
                 n.forward(r.new_blocks.max(depth), &mut r.rng);
+                while n.tip_number() < old_tip {
+                    n.forward(1, &mut r.rng);
+                }
                 log.lock().unwrap().mid_import_reorgs_applied += 1;
             }
         }
